@@ -14,8 +14,7 @@
   (`gen_params_valid_mul` instantiates it).  The operator theorems used: `dAddAssign_spec`,
   `dSubAssign_spec`, `dSubRev_spec` (C10 over C01), `scalar_mul_val`, `mul3_spec` (C02),
   `divRemDigit_spec'`, `remDigit_spec'`, `divRemVal_spec'` (the statements of C03's `div_rem_digit_spec`,
-  `rem_digit_spec`, `div_rem_val_spec`, taken from NB.Lemmas.Div because NB.Props.C03 and NB.Props.C08 cannot
-  be imported together: both declare `NB.neg_ofInt`), `biguint_to_spec`, `bigint_from_val` (C08),
+  `rem_digit_spec`, `div_rem_val_spec`, taken from NB.Lemmas.Div), `biguint_to_spec`, `bigint_from_val` (C08),
   `cmpSlice_spec`, `fromU64_eq_ofNat`, `fromU128_eq_ofNat`.
 
   Headline: `dUScalarForm_refines`, `dIScalarForm_refines` (the whole promotion + leaf routing), and the
@@ -23,10 +22,41 @@
   digit vectors, returns the canonical digits of the canonical operation (or its panic class).
   Nothing here is `_partial`.  The driver (NB.Drv.C10) computes the model column of these forms with
   `NB.SD.uScalarForm` / `NB.SD.iScalarForm` / `NB.SD.dRemAssignScalar`.
+
+  Second part — THE REMAINING FORMS (shifts, Pow, big ∘ big, checked_*, Sum / Product), which the driver also
+  computes on digit vectors (second part of NB.Model.ScalarD, NB.Model.PowD):
+    dUShl_refines, dUShr_refines                      `NB.C07.biguintShl/Shr a k = (uShl/uShr (val a) k).map ofNat`
+                                                      for EVERY amount `k : Int` (negshift, capacity overflow included)
+    dIShl_refines, dIShlAssign_refines, dIShr_refines, dIShrAssign_refines
+                                                      `NB.C07.BigInt.shl/… a k = (iShl/… (toV a) k).map ofV`
+                                                      (`shr_round_down`, the `+ 1u8`, the sign fix of `>>=`)
+    dShift_spec_u, dShift_spec_i                      transferred: `a·2^k`, `⌊a / 2^k⌋` (toward −∞), or the panic class
+    dUPow_refines, dIPow_refines, dUPowBig_refines, dIPowBig_refines
+                                                      `NB.PowD.*` (4 operand forms) = `powPrim`, `iPow`, `uPowBig`, `iPowBig`
+    dUBin_refines, dIBin_refines                      `&a ∘ &b` on digits = the value-level `uBin` / `iBin` of NB.Drv.C10
+                                                      (`+ - * / % & | ^` for BigUint, `+ - * / %` for BigInt)
+    dIBin_spec                                        all eight BigInt operators against `Int` `+ - * tdiv tmod land lor xor`
+    dUChecked_spec, dIChecked_spec                    `checked_add/sub/mul/div`: `None` iff `a < b` / zero divisor
+    dUSum_spec, dUProduct_spec, dISum_spec, dIProduct_spec
+                                                      the folds over big and scalar items = `ofNat (Σ)`, `ofNat (Π)`, …
+  Hypotheses beyond canonicity: `P.ValidMul` where a multiplication occurs (`gen_params_valid_mul`), and for
+  `>>`: the operand has fewer than 2^64 bits / digits (`hlen`, as `shr_spec` / `bigint_shr_spec` of C07 need —
+  a `Vec` cannot be longer).  Operator theorems used: C01 `addRef_spec`, `addAssign_spec`, `subRef_spec`,
+  `checkedSub_spec`, `bigint_add_spec`, `bigint_sub_spec`; C02 `mul_spec`, `bigint_mul_spec`; C03 `divRef_spec`,
+  `remRef_spec`, `checkedDiv_spec`, `bigint_div_spec`, `bigint_rem_spec`, `bigint_checkedDiv_spec`; C07 `shl_spec`,
+  `shl_capacity`, `shl_negative`, `shr_spec`, `shr_negative`, `bigint_shr_spec`, `bigint_shr_negative`,
+  `bigint_shrAssign_spec`, `shrRoundDown_no_internal`, `andRef_spec` …, `bigint_andRef_spec` …; C12 `powD_spec`,
+  `pow_bigD_spec`, `bigint_powD_spec`, `bigint_pow_bigD_spec`.
+  Not linked: the driver's former value-level sign-case formulas `iBit` for BigInt `& | ^` (no theorem existed about
+  them); `dIBin_spec` states these three operators directly against Mathlib's `Int.land / lor / xor`.
 -/
 import NB.Props.C10
+import NB.Props.C01
 import NB.Props.C02
+import NB.Props.C03
+import NB.Props.C07
 import NB.Props.C08
+import NB.Props.C12
 import NB.Lemmas.Div
 import NB.Lemmas.ScalarD
 namespace NB
@@ -477,6 +507,475 @@ theorem drv_iScalarForm_spec (op : AOp) (pos : SPos) (t : STy) (a : BigInt) (s :
     SD.iScalarForm NB.Gen.P op pos t a s = placeBI op pos a.val s :=
   dIScalarForm_spec NB.Gen.P gen_params_valid_mul op pos t a s ha h
 
+/-! # second part: shifts, Pow, big ∘ big, checked_*, Sum / Product on digit vectors
+
+  (definitions: second part of NB.Model.ScalarD; what NB.Drv.C10 runs for these forms) -/
+
+theorem canon_val_ne_zero_iff {a : List Nat} (ha : Canon a) : val a ≠ 0 ↔ a ≠ [] := by
+  constructor
+  · intro h e; subst e; exact h rfl
+  · intro h; exact Nat.ne_of_gt (canon_val_pos ha h)
+
+theorem dUShl_refines (a : List Nat) (k : Int) (ha : Canon a) :
+    SD.uShiftForm true a k = (uShl (val a) k).map ofNat := by
+  show NB.C07.biguintShl a k = _
+  rw [uShl_spec]
+  by_cases hk : k < 0
+  · rw [C07.shl_negative a k hk]; simp only [hk, if_true]; rfl
+  · have hk0 : 0 ≤ k := by omega
+    simp only [hk, if_false]
+    by_cases hcap : val a ≠ 0 ∧ k / 64 ≥ usizeLim
+    · rw [if_pos hcap]
+      rw [C07.shl_capacity a k hk0 ((canon_val_ne_zero_iff ha).1 hcap.1)
+        (by have := hcap.2; unfold usizeLim at this; unfold C07.USIZE_RANGE C07.BITS B; omega)]
+      rfl
+    · rw [if_neg hcap]
+      rw [C07.shl_spec a k ha hk0 (fun hne => by
+        have h1 := (canon_val_ne_zero_iff ha).2 hne
+        have h2 : ¬ k / 64 ≥ usizeLim := fun h => hcap ⟨h1, h⟩
+        unfold usizeLim at h2; unfold C07.USIZE_RANGE C07.BITS B; omega)]
+      rfl
+
+theorem dUShr_refines (a : List Nat) (k : Int) (ha : Canon a) (hlen : a.length < C07.USIZE_RANGE) :
+    SD.uShiftForm false a k = (uShr (val a) k).map ofNat := by
+  show NB.C07.biguintShr a k = _
+  rw [uShr_spec]
+  by_cases hk : k < 0
+  · rw [C07.shr_negative a k hk]; simp only [hk, if_true]; rfl
+  · rw [C07.shr_spec a k ha (by omega) hlen]; simp only [hk, if_false]; rfl
+
+theorem dIShl_refines (P : Params) (a : BigInt) (k : Int) (ha : a.Canon) :
+    SD.iShiftForm P true false a k = (iShl (SD.toV a) k).map SD.ofV := by
+  show NB.C07.BigInt.shl a k = _
+  unfold NB.C07.BigInt.shl iShl
+  rw [show NB.C07.biguintShl a.mag k = _ from dUShl_refines a.mag k ha.1]
+  exact SD.map_ofNat_ofV _ _ _ (fun n => SD.bigFromBiguint_ofNat a.sign n)
+
+theorem dIShlAssign_refines (P : Params) (a : BigInt) (k : Int) (ha : a.Canon) :
+    SD.iShiftForm P true true a k = (iShlAssign (SD.toV a) k).map SD.ofV := by
+  show NB.C07.BigInt.shlAssign a k = _
+  unfold NB.C07.BigInt.shlAssign iShlAssign
+  rw [show NB.C07.biguintShl a.mag k = _ from dUShl_refines a.mag k ha.1]
+  exact SD.map_ofNat_ofV _ _ _ (fun n => rfl)
+
+theorem hbits_of_len {m : List Nat} (hm : DigitsOk m) (hlen : C07.BITS * m.length < C07.U64_RANGE) :
+    ∀ K : Nat, 2 ^ 64 ≤ K → val m < 2 ^ K := by
+  intro K hK
+  calc val m < B ^ m.length := val_lt hm
+    _ = 2 ^ (64 * m.length) := pow_B _
+    _ ≤ 2 ^ K := Nat.pow_le_pow_right (by decide) (by unfold C07.BITS C07.U64_RANGE B at hlen; omega)
+
+theorem dIShr_refines (P : Params) (a : BigInt) (k : Int) (ha : a.Canon)
+    (hlen : C07.BITS * a.mag.length < C07.U64_RANGE) :
+    SD.iShiftForm P false false a k = (iShr (SD.toV a) k).map SD.ofV := by
+  show NB.C07.BigInt.shr P a k = _
+  rw [iShr_spec (SD.toV a) k (SD.toV_canon ha) (hbits_of_len ha.1.1 hlen)]
+  by_cases hk : k < 0
+  · rw [C07.bigint_shr_negative P a k ha hk]; simp only [hk, if_true]; rfl
+  · rw [C07.bigint_shr_spec P a k ha (by omega) hlen]; simp only [hk, if_false]
+    show _ = Except.ok (SD.ofV _)
+    rw [SD.ofV_ofInt, SD.toV_val]
+
+theorem bigint_shrAssign_negative (P : Params) (x : BigInt) (k : Int) (hx : x.Canon) (hk : k < 0) :
+    C07.BigInt.shrAssign P x k = .error .negshift := by
+  unfold C07.BigInt.shrAssign
+  obtain ⟨b, hb⟩ := C07.shrRoundDown_no_internal x k hx
+  rw [hb, C07.shr_negative _ _ hk]; rfl
+
+theorem dIShrAssign_refines (P : Params) (a : BigInt) (k : Int) (ha : a.Canon)
+    (hlen : C07.BITS * a.mag.length < C07.U64_RANGE) :
+    SD.iShiftForm P false true a k = (iShrAssign (SD.toV a) k).map SD.ofV := by
+  show NB.C07.BigInt.shrAssign P a k = _
+  rw [iShrAssign_spec (SD.toV a) k (SD.toV_canon ha),
+    iShr_spec (SD.toV a) k (SD.toV_canon ha) (hbits_of_len ha.1.1 hlen)]
+  by_cases hk : k < 0
+  · rw [bigint_shrAssign_negative P a k ha hk]; simp only [hk, if_true]; rfl
+  · rw [C07.bigint_shrAssign_spec P a k ha (by omega) hlen]; simp only [hk, if_false]
+    show _ = Except.ok (SD.ofV _)
+    rw [SD.ofV_ofInt, SD.toV_val]
+
+/-! pow -/
+theorem dUPow_refines (P : Params) (hP : P.ValidMul) (f : Pow.Form) (a : List Nat) (e : Nat) (ha : Canon a) :
+    PowD.powPrim P f a e = .ok (ofNat (powPrim (val a) e)) := by
+  rw [powD_spec P hP f a e ha, powPrim_eq]
+
+theorem dIPow_refines (P : Params) (hP : P.ValidMul) (f : Pow.Form) (a : BigInt) (e : Nat) (ha : a.Canon) :
+    PowD.bigintPow P f a e = .ok (SD.ofV (iPow (SD.toV a) e)) := by
+  rw [bigint_powD_spec P hP f a e ha, iPow_spec, SD.ofV_ofInt, SD.toV_val]
+
+theorem two_pow_128 : (2 : Nat) ^ 128 = 340282366920938463463374607431768211456 := by norm_num
+
+theorem dUPowBig_refines (P : Params) (hP : P.ValidMul) (f : Pow.Form) (a e : List Nat) (ha : Canon a)
+    (he : Canon e) :
+    PowD.powBig P f a e = (uPowBig (val a) (val e)).map ofNat := by
+  rw [pow_bigD_spec P hP f a e ha he, uPowBig_spec, two_pow_128]
+  split <;> rfl
+
+theorem bigint_natAbs_val {a : BigInt} (ha : a.Canon) : a.val.natAbs = val a.mag := by
+  obtain ⟨s, m⟩ := a
+  cases s
+  · show (-(val m : Int)).natAbs = val m; omega
+  · have : m = [] := ha.2.1 rfl
+    subst this; rfl
+  · show ((val m : Int)).natAbs = val m; omega
+
+theorem dIPowBig_refines (P : Params) (hP : P.ValidMul) (f : Pow.Form) (a : BigInt) (e : List Nat)
+    (ha : a.Canon) (he : Canon e) :
+    PowD.bigintPowBig P f a e = (iPowBig (SD.toV a) (val e)).map SD.ofV := by
+  rw [bigint_pow_bigD_spec P hP f a e ha he, iPowBig_spec, two_pow_128, bigint_natAbs_val ha]
+  rw [show (SD.toV a).mag = val a.mag from rfl]
+  by_cases h : 2 ≤ val a.mag ∧ 340282366920938463463374607431768211456 ≤ val e
+  · rw [if_pos h, if_pos h]; rfl
+  · rw [if_neg h, if_neg h]
+    show _ = Except.ok (SD.ofV _); rw [SD.ofV_ofInt, SD.toV_val]
+
+/-! big ∘ big -/
+
+theorem dUBin_refines (P : Params) (hP : P.ValidMul) (op : Nat) (a b : List Nat) (ha : Canon a) (hb : Canon b) :
+    SD.uBinForm P op a b = (Drv.C10.uBin op (val a) (val b)).map ofNat := by
+  have hz : b = [] ↔ val b = 0 := by
+    have := canon_val_ne_zero_iff hb; constructor
+    · intro h; subst h; rfl
+    · intro h; by_contra c; exact (this.2 c) h
+  match op with
+  | 0 => rfl
+  | 1 => show Except.ok (addRef P a b) = _; rw [addRef_spec P a b ha hb]; rfl
+  | 2 =>
+    show subRef P a b = _; rw [subRef_spec P a b ha hb]
+    show _ = Except.map ofNat (if val a < val b then _ else _); split <;> rfl
+  | 3 => show Mul.mulRef P a b = _; rw [NB.mul_spec P hP a b ha hb]; rfl
+  | 4 =>
+    show divRef P a b = _; rw [divRef_spec P a b ha hb]
+    show _ = Except.map ofNat (if val b = 0 then _ else _)
+    by_cases h : b = []
+    · rw [if_pos h, if_pos (hz.1 h)]; rfl
+    · rw [if_neg h, if_neg (fun c => h (hz.2 c))]; rfl
+  | 5 =>
+    show remRef P a b = _; rw [remRef_spec P a b ha hb]
+    show _ = Except.map ofNat (if val b = 0 then _ else _)
+    by_cases h : b = []
+    · rw [if_pos h, if_pos (hz.1 h)]; rfl
+    · rw [if_neg h, if_neg (fun c => h (hz.2 c))]; rfl
+  | 6 => show Except.ok (C07.andRef a b) = _; rw [C07.andRef_spec a b ha hb]; rfl
+  | 7 => show Except.ok (C07.orRef a b) = _; rw [C07.orRef_spec a b ha hb]; rfl
+  | 8 => show Except.ok (C07.xorRef a b) = _; rw [C07.xorRef_spec a b ha hb]; rfl
+  | n + 9 => rfl
+
+theorem tdiv_sign_both (s t : Sign) (m n : Nat) :
+    Int.tdiv (s.toInt * m) (t.toInt * n) = (s.mul t).toInt * ↑(m / n) := by
+  rw [sign_mul_toInt]
+  cases t
+  · rw [show Sign.toInt .minus = -1 from rfl, neg_one_mul, Int.tdiv_neg, tdiv_sign]; ring
+  · simp [Sign.toInt]
+  · rw [show Sign.toInt .plus = 1 from rfl, one_mul, tdiv_sign]; ring
+
+theorem tmod_sign_both (s t : Sign) (m n : Nat) (ht : t ≠ .nosign) :
+    Int.tmod (s.toInt * m) (t.toInt * n) = s.toInt * ↑(m % n) := by
+  cases t
+  · rw [show Sign.toInt .minus = -1 from rfl, neg_one_mul, Int.tmod_neg, tmod_sign]
+  · exact absurd rfl ht
+  · rw [show Sign.toInt .plus = 1 from rfl, one_mul, tmod_sign]
+
+theorem toV_mag_zero_iff {b : BigInt} (hb : b.Canon) : (SD.toV b).mag = 0 ↔ b.val = 0 := by
+  rw [← SD.toV_val]; exact (vint_canon_val_zero_iff (SD.toV_canon hb)).symm
+
+/-- `&BigInt ∘ &BigInt` for `+ - * / %` on (sign, digit vector) refines the value-level canonical operation -/
+theorem dIBin_refines (P : Params) (hP : P.ValidMul) (op : Nat) (hop : ¬ (op = 6 ∨ op = 7 ∨ op = 8))
+    (a b : BigInt) (ha : a.Canon) (hb : b.Canon) :
+    SD.iBinForm P op a b = (Drv.C10.iBin op (SD.toV a) (SD.toV b)).map SD.ofV := by
+  have hz := toV_mag_zero_iff hb
+  have hsb : (SD.toV b).mag ≠ 0 → (SD.toV b).sign ≠ .nosign := fun h c => h ((SD.toV_canon hb).1 c)
+  match op, hop with
+  | 0, _ => rfl
+  | 1, _ =>
+    show BigInt.add P a b = _; rw [bigint_add_spec P a b ha hb]
+    show _ = Except.ok (SD.ofV (VInt.ofInt _)); rw [SD.ofV_ofInt, SD.toV_val, SD.toV_val]
+  | 2, _ =>
+    show BigInt.sub P a b = _; rw [bigint_sub_spec P a b ha hb]
+    show _ = Except.ok (SD.ofV (VInt.ofInt _)); rw [SD.ofV_ofInt, SD.toV_val, SD.toV_val]
+  | 3, _ =>
+    show Mul.bigintMul P a b = _; rw [bigint_mul_spec P hP a b ha hb]
+    show _ = Except.ok (SD.ofV (VInt.mul _ _)); rw [vint_mul_spec, SD.ofV_ofInt, SD.toV_val, SD.toV_val]
+  | 4, _ =>
+    show BigInt.div P a b = _; rw [bigint_div_spec P a b ha hb]
+    show _ = Except.map SD.ofV (if (SD.toV b).mag = 0 then _ else _)
+    by_cases h : b.val = 0
+    · rw [if_pos h, if_pos (hz.2 h)]; rfl
+    · rw [if_neg h, if_neg (fun c => h (hz.1 c))]
+      show _ = Except.ok (SD.ofV (VInt.fromBiguint _ _))
+      rw [VInt.fromBiguint_toInt, SD.ofV_ofInt, ← tdiv_sign_both, ← VInt.val_eq_toInt, ← VInt.val_eq_toInt,
+        SD.toV_val, SD.toV_val]
+  | 5, _ =>
+    show BigInt.rem P a b = _; rw [bigint_rem_spec P a b ha hb]
+    show _ = Except.map SD.ofV (if (SD.toV b).mag = 0 then _ else _)
+    by_cases h : b.val = 0
+    · rw [if_pos h, if_pos (hz.2 h)]; rfl
+    · have hm : (SD.toV b).mag ≠ 0 := fun c => h (hz.1 c)
+      rw [if_neg h, if_neg hm]
+      show _ = Except.ok (SD.ofV (VInt.fromBiguint _ _))
+      rw [VInt.fromBiguint_toInt, SD.ofV_ofInt, ← tmod_sign_both _ _ _ _ (hsb hm), ← VInt.val_eq_toInt,
+        ← VInt.val_eq_toInt, SD.toV_val, SD.toV_val]
+  | 6, h => exact absurd (Or.inl rfl) h
+  | 7, h => exact absurd (Or.inr (Or.inl rfl)) h
+  | 8, h => exact absurd (Or.inr (Or.inr rfl)) h
+  | n + 9, _ => rfl
+
+/-- the mathematical meaning of the canonical `&BigInt ∘ &BigInt` operations (`/ %` truncate; `& | ^` are
+    Mathlib's two's-complement `Int.land / lor / xor`) -/
+def formSpecI (op : Nat) (x y : Int) : Except Panic BigInt :=
+  match op with
+  | 1 => .ok (BigInt.ofInt (x + y))
+  | 2 => .ok (BigInt.ofInt (x - y))
+  | 3 => .ok (BigInt.ofInt (x * y))
+  | 4 => if y = 0 then .error .divzero else .ok (BigInt.ofInt (Int.tdiv x y))
+  | 5 => if y = 0 then .error .divzero else .ok (BigInt.ofInt (Int.tmod x y))
+  | 6 => .ok (BigInt.ofInt (Int.land x y))
+  | 7 => .ok (BigInt.ofInt (Int.lor x y))
+  | 8 => .ok (BigInt.ofInt (Int.xor x y))
+  | _ => .error (.internal "op")
+
+theorem dIBin_spec (P : Params) (hP : P.ValidMul) (op : Nat) (a b : BigInt) (ha : a.Canon) (hb : b.Canon) :
+    SD.iBinForm P op a b = formSpecI op a.val b.val := by
+  match op with
+  | 0 => rfl
+  | 1 => exact bigint_add_spec P a b ha hb
+  | 2 => exact bigint_sub_spec P a b ha hb
+  | 3 => exact bigint_mul_spec P hP a b ha hb
+  | 4 => exact bigint_div_spec P a b ha hb
+  | 5 => exact bigint_rem_spec P a b ha hb
+  | 6 => exact C07.bigint_andRef_spec a b ha hb
+  | 7 => exact C07.bigint_orRef_spec a b ha hb
+  | 8 => exact C07.bigint_xorRef_spec a b ha hb
+  | n + 9 => rfl
+
+/-- `checked_add/sub/mul/div` for BigUint on digits: `None` exactly for `a < b` resp. a zero divisor, never a panic -/
+theorem dUChecked_spec (P : Params) (hP : P.ValidMul) (op : Nat) (a b : List Nat) (ha : Canon a) (hb : Canon b) :
+    SD.uCheckedForm P op a b =
+      match op with
+      | 1 => .ok (some (ofNat (val a + val b)))
+      | 2 => .ok (if val a < val b then none else some (ofNat (val a - val b)))
+      | 3 => .ok (some (ofNat (val a * val b)))
+      | 4 => .ok (if val b = 0 then none else some (ofNat (val a / val b)))
+      | _ => .error (.internal "op") := by
+  match op with
+  | 0 => rfl
+  | 1 => show Except.ok (some (addRef P a b)) = _; rw [addRef_spec P a b ha hb]; rfl
+  | 2 => exact checkedSub_spec P a b ha hb
+  | 3 => show (Mul.mulRef P a b).map some = _; rw [NB.mul_spec P hP a b ha hb]; rfl
+  | 4 =>
+    show checkedDiv P a b = _; rw [checkedDiv_spec P a b ha hb]
+    have := canon_val_ne_zero_iff hb
+    by_cases h : b = []
+    · subst h; rfl
+    · rw [if_neg h]; show _ = Except.ok (if val b = 0 then _ else _); rw [if_neg (this.2 h)]
+  | n + 5 => rfl
+
+theorem dIChecked_spec (P : Params) (hP : P.ValidMul) (op : Nat) (a b : BigInt) (ha : a.Canon) (hb : b.Canon) :
+    SD.iCheckedForm P op a b =
+      match op with
+      | 1 => .ok (some (BigInt.ofInt (a.val + b.val)))
+      | 2 => .ok (some (BigInt.ofInt (a.val - b.val)))
+      | 3 => .ok (some (BigInt.ofInt (a.val * b.val)))
+      | 4 => .ok (if b.val = 0 then none else some (BigInt.ofInt (Int.tdiv a.val b.val)))
+      | _ => .error (.internal "op") := by
+  match op with
+  | 0 => rfl
+  | 1 => show (BigInt.add P a b).map some = _; rw [bigint_add_spec P a b ha hb]; rfl
+  | 2 => show (BigInt.sub P a b).map some = _; rw [bigint_sub_spec P a b ha hb]; rfl
+  | 3 => show (Mul.bigintMul P a b).map some = _; rw [bigint_mul_spec P hP a b ha hb]; rfl
+  | 4 => exact bigint_checkedDiv_spec P a b ha hb
+  | n + 5 => rfl
+
+/-! Sum / Product -/
+
+/-- the value of an item of a BigUint `Sum` / `Product` -/
+def uItemVal : SD.Item (List Nat) → Nat
+  | .big b => val b
+  | .sc _ s => s.toNat
+
+/-- an admissible item: a canonical big value or an in-range value of an unsigned scalar type -/
+def UItemOk : SD.Item (List Nat) → Prop
+  | .big b => Canon b
+  | .sc t s => t.signed = false ∧ t.InRange s
+
+def iItemVal : SD.Item BigInt → Int
+  | .big b => b.val
+  | .sc _ s => s
+
+def IItemOk : SD.Item BigInt → Prop
+  | .big b => b.Canon
+  | .sc t s => t.InRange s
+
+theorem dUIterStep_spec (P : Params) (hP : P.ValidMul) (sum : Bool) (v : Nat) (it : SD.Item (List Nat))
+    (hit : UItemOk it) :
+    SD.uIterStep P sum (ofNat v) it = .ok (ofNat (if sum then v + uItemVal it else v * uItemVal it)) := by
+  cases it with
+  | big b =>
+    cases sum
+    · show Mul.mulRef P (ofNat v) b = _
+      rw [NB.mul_spec P hP _ b (ofNat_canon v) hit, ofNat_val]; rfl
+    · show Except.ok (addAssign P (ofNat v) b) = _
+      rw [addAssign_spec P _ b (ofNat_canon v) hit, ofNat_val]; rfl
+  | sc t s =>
+    obtain ⟨ht, hs⟩ := hit
+    cases sum
+    · show SD.uScalarForm P .mul .bigScalar t (ofNat v) s = _
+      rw [dUScalarForm_spec P hP .mul .bigScalar t _ s (ofNat_canon v) ht hs, ofNat_val]; rfl
+    · show SD.uScalarForm P .add .bigScalar t (ofNat v) s = _
+      rw [dUScalarForm_spec P hP .add .bigScalar t _ s (ofNat_canon v) ht hs, ofNat_val]; rfl
+
+theorem dUIterFold_spec (P : Params) (hP : P.ValidMul) (sum : Bool) :
+    ∀ (items : List (SD.Item (List Nat))) (v : Nat), (∀ it ∈ items, UItemOk it) →
+      SD.uIterFold P sum (ofNat v) items =
+        .ok (ofNat (if sum then v + (items.map uItemVal).sum else v * (items.map uItemVal).prod)) := by
+  intro items
+  induction items with
+  | nil => intro v _; cases sum <;> simp [SD.uIterFold]
+  | cons it rest ih =>
+    intro v h
+    unfold SD.uIterFold
+    rw [dUIterStep_spec P hP sum v it (h it (List.mem_cons_self))]
+    simp only []
+    rw [ih _ (fun x hx => h x (List.mem_cons_of_mem _ hx))]
+    cases sum
+    · simp only [Bool.false_eq_true, if_false, List.map_cons, List.prod_cons, Nat.mul_assoc]
+    · simp only [if_true, List.map_cons, List.sum_cons, Nat.add_assoc]
+
+/-- `Sum` for BigUint over big and scalar items, on digits: the canonical digits of the sum -/
+theorem dUSum_spec (P : Params) (hP : P.ValidMul) (items : List (SD.Item (List Nat))) (h : ∀ it ∈ items, UItemOk it) :
+    SD.uIterForm P true items = .ok (ofNat (items.map uItemVal).sum) := by
+  have := dUIterFold_spec P hP true items 0 h
+  rw [SD.ofNat_zero] at this
+  simpa [SD.uIterForm] using this
+
+/-- `Product` for BigUint, on digits: the canonical digits of the product (empty product = 1) -/
+theorem dUProduct_spec (P : Params) (hP : P.ValidMul) (items : List (SD.Item (List Nat))) (h : ∀ it ∈ items, UItemOk it) :
+    SD.uIterForm P false items = .ok (ofNat (items.map uItemVal).prod) := by
+  have := dUIterFold_spec P hP false items 1 h
+  rw [ofNat_one] at this
+  simpa [SD.uIterForm] using this
+
+theorem dIIterStep_spec (P : Params) (hP : P.ValidMul) (sum : Bool) (v : Int) (it : SD.Item BigInt)
+    (hit : IItemOk it) :
+    SD.iIterStep P sum (BigInt.ofInt v) it = .ok (BigInt.ofInt (if sum then v + iItemVal it else v * iItemVal it)) := by
+  cases it with
+  | big b =>
+    cases sum
+    · show Mul.bigintMul P (BigInt.ofInt v) b = _
+      rw [bigint_mul_spec P hP _ b (bigint_ofInt_canon v) hit, bigint_ofInt_val]; rfl
+    · show BigInt.add P (BigInt.ofInt v) b = _
+      rw [bigint_add_spec P _ b (bigint_ofInt_canon v) hit, bigint_ofInt_val]; rfl
+  | sc t s =>
+    cases sum
+    · show SD.iScalarForm P .mul .bigScalar t (BigInt.ofInt v) s = _
+      rw [dIScalarForm_spec P hP .mul .bigScalar t _ s (bigint_ofInt_canon v) hit, bigint_ofInt_val]; rfl
+    · show SD.iScalarForm P .add .bigScalar t (BigInt.ofInt v) s = _
+      rw [dIScalarForm_spec P hP .add .bigScalar t _ s (bigint_ofInt_canon v) hit, bigint_ofInt_val]; rfl
+
+theorem dIIterFold_spec (P : Params) (hP : P.ValidMul) (sum : Bool) :
+    ∀ (items : List (SD.Item BigInt)) (v : Int), (∀ it ∈ items, IItemOk it) →
+      SD.iIterFold P sum (BigInt.ofInt v) items =
+        .ok (BigInt.ofInt (if sum then v + (items.map iItemVal).sum else v * (items.map iItemVal).prod)) := by
+  intro items
+  induction items with
+  | nil => intro v _; cases sum <;> simp [SD.iIterFold]
+  | cons it rest ih =>
+    intro v h
+    unfold SD.iIterFold
+    rw [dIIterStep_spec P hP sum v it (h it (List.mem_cons_self))]
+    simp only []
+    rw [ih _ (fun x hx => h x (List.mem_cons_of_mem _ hx))]
+    cases sum
+    · simp only [Bool.false_eq_true, if_false, List.map_cons, List.prod_cons, mul_assoc]
+    · simp only [if_true, List.map_cons, List.sum_cons, add_assoc]
+
+theorem dISum_spec (P : Params) (hP : P.ValidMul) (items : List (SD.Item BigInt)) (h : ∀ it ∈ items, IItemOk it) :
+    SD.iIterForm P true items = .ok (BigInt.ofInt (items.map iItemVal).sum) := by
+  have := dIIterFold_spec P hP true items 0 h
+  rw [show BigInt.ofInt 0 = ⟨.nosign, []⟩ from ofInt_zero] at this
+  simpa [SD.iIterForm] using this
+
+theorem dIProduct_spec (P : Params) (hP : P.ValidMul) (items : List (SD.Item BigInt)) (h : ∀ it ∈ items, IItemOk it) :
+    SD.iIterForm P false items = .ok (BigInt.ofInt (items.map iItemVal).prod) := by
+  have := dIIterFold_spec P hP false items 1 h
+  rw [show BigInt.ofInt 1 = ⟨.plus, [1]⟩ by simp [BigInt.ofInt, ofNat_one]] at this
+  simpa [SD.iIterForm] using this
+
+
+/-! ### transferred specs and the instances the driver runs -/
+
+/-- BigUint `<<` / `>>` (and `<<=`, `>>=`) by any amount of any of the 12 primitive types, on digits -/
+theorem dShift_spec_u (left : Bool) (a : List Nat) (k : Int) (ha : Canon a) (hlen : a.length < C07.USIZE_RANGE) :
+    SD.uShiftForm left a k =
+      if k < 0 then .error .negshift
+      else if left then
+        (if val a ≠ 0 ∧ k / 64 ≥ usizeLim then .error .capacity else .ok (ofNat (val a * 2 ^ k.toNat)))
+      else .ok (ofNat (val a / 2 ^ k.toNat)) := by
+  cases left
+  · rw [dUShr_refines a k ha hlen, uShr_spec]
+    by_cases hk : k < 0
+    · rw [if_pos hk, if_pos hk]; rfl
+    · rw [if_neg hk, if_neg hk]; rfl
+  · rw [dUShl_refines a k ha, uShl_spec]
+    by_cases hk : k < 0
+    · rw [if_pos hk, if_pos hk]; rfl
+    · rw [if_neg hk, if_neg hk]
+      simp only [if_true]
+      split <;> rfl
+
+/-- BigInt `<< <<= >> >>=` on (sign, digits): `x·2^k`, `⌊x / 2^k⌋` toward −∞, negative amounts panic -/
+theorem dShift_spec_i (P : Params) (left assign : Bool) (a : BigInt) (k : Int) (ha : a.Canon)
+    (hlen : C07.BITS * a.mag.length < C07.U64_RANGE) :
+    SD.iShiftForm P left assign a k =
+      if k < 0 then .error .negshift
+      else if left then
+        (if a.val ≠ 0 ∧ k / 64 ≥ usizeLim then .error .capacity else .ok (BigInt.ofInt (a.val * 2 ^ k.toNat)))
+      else .ok (BigInt.ofInt (a.val / 2 ^ k.toNat)) := by
+  have hc := SD.toV_canon ha
+  have hb := hbits_of_len ha.1.1 hlen
+  have e1 : (iShl (SD.toV a) k).map SD.ofV =
+      if k < 0 then .error .negshift
+      else (if a.val ≠ 0 ∧ k / 64 ≥ usizeLim then .error .capacity else .ok (BigInt.ofInt (a.val * 2 ^ k.toNat))) := by
+    rw [iShl_spec _ k hc, SD.toV_val]
+    by_cases hk : k < 0
+    · rw [if_pos hk, if_pos hk]; rfl
+    · rw [if_neg hk, if_neg hk]
+      split
+      · rfl
+      · show Except.ok (SD.ofV _) = _; rw [SD.ofV_ofInt]
+  have e2 : (iShr (SD.toV a) k).map SD.ofV =
+      if k < 0 then .error .negshift else .ok (BigInt.ofInt (a.val / 2 ^ k.toNat)) := by
+    rw [iShr_spec _ k hc hb, SD.toV_val]
+    by_cases hk : k < 0
+    · rw [if_pos hk, if_pos hk]; rfl
+    · rw [if_neg hk, if_neg hk]; show Except.ok (SD.ofV _) = _; rw [SD.ofV_ofInt]
+  cases left <;> cases assign
+  · rw [dIShr_refines P a k ha hlen, e2]; simp
+  · rw [dIShrAssign_refines P a k ha hlen, iShrAssign_spec _ k hc, e2]; simp
+  · rw [dIShl_refines P a k ha, e1]; simp
+  · rw [dIShlAssign_refines P a k ha, iShlAssign_spec _ k hc, e1]; simp
+
+/-- digit-level `Pow` by a primitive exponent: `x^e`, every operand form, no multiplication panic -/
+theorem dUPow_spec (P : Params) (hP : P.ValidMul) (f : Pow.Form) (a : List Nat) (e : Nat) (ha : Canon a) :
+    PowD.powPrim P f a e = .ok (ofNat (val a ^ e)) := powD_spec P hP f a e ha
+
+/-- what the driver runs (parameters regenerated from the source on every run) -/
+theorem drv_uBin_refines (op : Nat) (a b : List Nat) (ha : Canon a) (hb : Canon b) :
+    SD.uBinForm NB.Gen.P op a b = (Drv.C10.uBin op (val a) (val b)).map ofNat :=
+  dUBin_refines NB.Gen.P gen_params_valid_mul op a b ha hb
+
+theorem drv_iBin_spec (op : Nat) (a b : BigInt) (ha : a.Canon) (hb : b.Canon) :
+    SD.iBinForm NB.Gen.P op a b = formSpecI op a.val b.val :=
+  dIBin_spec NB.Gen.P gen_params_valid_mul op a b ha hb
+
+theorem drv_uPow_refines (f : Pow.Form) (a : List Nat) (e : Nat) (ha : Canon a) :
+    PowD.powPrim NB.Gen.P f a e = .ok (ofNat (powPrim (val a) e)) :=
+  dUPow_refines NB.Gen.P gen_params_valid_mul f a e ha
+
+theorem drv_iPow_refines (f : Pow.Form) (a : BigInt) (e : Nat) (ha : a.Canon) :
+    PowD.bigintPow NB.Gen.P f a e = .ok (SD.ofV (iPow (SD.toV a) e)) :=
+  dIPow_refines NB.Gen.P gen_params_valid_mul f a e ha
+
 /-! ## non-vacuity: concrete digit-level runs (two-digit scalar through `mul3`, Knuth division by `[lo, hi]`,
     the digit-count match, `MIN %= 2^(N-1)`, the sign/cmp match).
     `decide +kernel`: `ofNat`, `From<u64>` are well-founded recursions, which only the kernel unfolds. -/
@@ -493,5 +992,24 @@ example : SD.iScalarForm NB.Gen.P .sub .scalarBig .u64 ⟨.plus, [0, 1]⟩ 5 = .
   decide +kernel
 example : SD.uScalarForm NB.Gen.P .sub .bigScalar .u8 [254] 255 = .error .underflow := by decide +kernel
 example : SD.uScalarForm NB.Gen.P .div .assign .u64 [1, 2, 3] 0 = .error .divzero := by decide +kernel
+-- second part: a 65-bit left shift, the negative-amount panic, `-3 >> 1 = -2` (round down), `>>=` to zero,
+-- 3^5 by value/reference, (-2)^3, the capacity panic of a BigUint exponent ≥ 2^128, big ∘ big, Sum
+example : SD.uShiftForm true [B - 1] 65 = .ok [0, B - 2, 1] := by decide +kernel
+example : SD.uShiftForm false [1] (-1) = .error .negshift := by decide +kernel
+example : SD.iShiftForm NB.Gen.P false false ⟨.minus, [3]⟩ 1 = .ok ⟨.minus, [2]⟩ := by decide +kernel
+example : SD.iShiftForm NB.Gen.P false true ⟨.plus, [3]⟩ 2 = .ok ⟨.nosign, []⟩ := by decide +kernel
+example : SD.iShiftForm NB.Gen.P false true ⟨.minus, [3]⟩ (-128) = .error .negshift := by decide +kernel
+example : PowD.powPrim NB.Gen.P .rv [3] 5 = .ok [243] := by decide +kernel
+example : PowD.bigintPow NB.Gen.P .vv ⟨.minus, [2]⟩ 3 = .ok ⟨.minus, [8]⟩ := by decide +kernel
+example : PowD.powBig NB.Gen.P .rr [2] [0, 0, 1] = .error .capacity := by decide +kernel
+example : SD.uBinForm NB.Gen.P 2 [0, 1] [1] = .ok [B - 1] := by decide +kernel
+example : SD.uBinForm NB.Gen.P 2 [1] [0, 1] = .error .underflow := by decide +kernel
+example : SD.iBinForm NB.Gen.P 5 ⟨.minus, [7]⟩ ⟨.plus, [0, 1]⟩ = .ok ⟨.minus, [7]⟩ := by decide +kernel
+example : SD.iBinForm NB.Gen.P 6 ⟨.minus, [B - 1]⟩ ⟨.minus, [2]⟩ = .ok ⟨.minus, [0, 1]⟩ := by decide +kernel
+example : SD.uCheckedForm NB.Gen.P 4 [5] [] = .ok none := by decide +kernel
+example : SD.uIterForm NB.Gen.P true [.big [B - 1], .sc .u8 1, .big [0, 1]] = .ok [0, 2] := by decide +kernel
+example : UItemOk (.sc .u8 255) := ⟨rfl, by decide⟩
+example : UItemOk (.big [0, 1]) := by show Canon _; decide
+example : IItemOk (.sc .i8 (-128)) := by show STy.InRange _ _; decide
 
 end NB
